@@ -72,6 +72,16 @@ theorem split_only_on_own_path (hm : 1 ≤ m) (me : Bits) (ops : List Op) (hv : 
   obtain ⟨b, hb⟩ := hwf.keys_leaf hk
   simpa using hwf.split_on_path hb hp hne
 
+/-- Lookups agree with membership: `RoutingTable.get(id)` of a stored node's id returns that very node, and an id for
+    which `get` answers is stored in the bucket `get_bucket` names. -/
+theorem get_finds_stored (hm : 1 ≤ m) (me : Bits) (ops : List Op) (hv : ValidHistory w ops)
+    (k : Bits) (b : Bucket) (hb : (run m (RT.init me) ops).trie.get k = some b) (n : Node) (hn : n ∈ b.nodes) :
+    (run m (RT.init me) ops).get n.id = some n := by
+  have ho := node_in_owner hm me ops hv k b hb n hn
+  have hc := capacity hm me ops hv k b hb
+  simp only [RT.get, ho.2.2.2, Bucket.get]
+  exact find_of_nodup_ids hc.2 hn
+
 /-- `RoutingTable.add` terminates and never lets a KeyError escape: on every reachable table the split-and-retry
     recursion needs at most `w + 1` rounds (the model's fuel is never exhausted). -/
 theorem add_terminates (hm : 1 ≤ m) (me : Bits) (ops : List Op) (hv : ValidHistory w ops) (n : Node)
